@@ -696,10 +696,10 @@ Section Exec.
                       let n := Z.min dlen (zlen items) in
                       let cells := arr_cells s darr in
                       let cells' := (firstn (Z.to_nat doff) cells ++ firstn (Z.to_nat n) items ++ skipn (Z.to_nat (doff + n)) cells)%list in
-                      SNext slots rest (hset s darr (HArr cells'))
+                      SNext slots (if iB i =? 0 then rest else fn_Int n :: rest) (hset s darr (HArr cells'))    (* B: the count is used *)
                   | None => SUnmod "copy from unmodelled object"
                   end
-              | None => if is_slice_tag (vt a) then SNext slots rest s else SUnmod "copy to unmodelled object"
+              | None => if is_slice_tag (vt a) then SNext slots (if iB i =? 0 then rest else fn_Int 0 :: rest) s else SUnmod "copy to unmodelled object"
               end
           | _ => SStuck "COPY"
           end
